@@ -521,6 +521,8 @@ def _sampler(rng):
     ulow = lx - rnd(rng, 0.2, 1.0)
     p = {"nr": rnd(rng, 0.5, 3.0), "ni": rnd(rng, -3, 3), "umax": umax, "umin": umin, "lx": lx, "ulow": ulow, "lx2": umax + rnd(rng, 0.01, 0.1),
          "xmin": rnd(rng, 0.2, 0.4), "xmax": rnd(rng, 0.5, 0.9), "t": rnd(rng, 0.55, 0.95), "r": rnd(rng, 0.3, 3), "o": Fraction(rng.randint(0, 1))}
+    if rng.random() < 0.4:  # way parameters next to the saddle point t = 1/2 (any special treatment of small theta lives there)
+        p["t"] = Fraction(1, 2) + rng.choice((-1, 1)) * Fraction(rng.randint(2, 100), 10 ** rng.choice((4, 5, 6)))
     for i in range(6):
         p["c%d" % i] = rnd(rng, -2, 2)
         p["d%d" % i] = rnd(rng, -2, 2)
@@ -729,7 +731,9 @@ def replay_talbot(point, half):
     if "t" not in point:
         return None
     t = float(point["t"])
-    if not (0.02 < t < 0.98) or abs(t - 0.5) < 1e-3 or abs(t - 0.25) < 1e-3 or abs(t - 0.75) < 1e-3:
+    # t = 1/2 itself is the other case; next to it only the float cancellation of cot(theta) - theta/sin(theta)^2
+    # (about 1e-16/theta^2 relative to |jac| ~ 2 pi r) limits the comparison, hence the 2e-6 window, not more
+    if not (0.02 < t < 0.98) or abs(t - 0.5) < 2e-6 or abs(t - 0.25) < 1e-3 or abs(t - 0.75) < 1e-3:
         return None
     got = mel.Talbot_jac(t, r, o)
     want = mp.diff(lambda s: mel.Talbot_path(float(s), r, o).real, t) + 1j * mp.diff(lambda s: mel.Talbot_path(float(s), r, o).imag, t)
